@@ -78,14 +78,29 @@ def locs_items(t):
     return [("s", x) for x in t.locs] if t.locs is not None else [("v", t.name + ".locations")]
 
 
-def flat(t, prefix=()):
-    """reference flatten: list of (leaf node, location items outer->inner)"""
+def flat(t, prefix=(), inherited=None):
+    """reference flatten: list of (leaf node, location items outer->inner, node whose span the leaf ends up with)"""
+    src = inherited if t.span is False else t
     if t.kids is None:
-        return [(t, list(prefix) + locs_items(t))]
+        return [(t, list(prefix) + locs_items(t), src)]
     out = []
     for k in t.kids:
-        out.extend(flat(k, tuple(prefix) + tuple(locs_items(t))))
+        out.extend(flat(k, tuple(prefix) + tuple(locs_items(t)), t if t.span is not False else inherited))
     return out
+
+
+def span_matches(sp, src, st):
+    """the viewed span field is the span of input node `src` (None: no span)"""
+    if src is None:
+        return span_none(sp) or (isinstance(sp, L) and st.decisions.get(sp.name + "#d") == 0)
+    if isinstance(sp, L):
+        return sp.name == src.name + ".span"
+    if isinstance(sp, dict) and sp.get("_v") == "Some":
+        o = sp["0"]
+        return isinstance(o, Opaque) and o.data == ("in", src.name + ".span.Some.0")
+    if span_none(sp):
+        return src.span is False
+    return False
 
 
 def norm_items(items, st):
@@ -154,7 +169,7 @@ def span_same(sp, name):
 def expected_flat_view(t, st):
     """what flatten must return, in view_err shape (spans: each leaf keeps its own)"""
     fl = flat(t)
-    leaves = [("leaf", n.name, norm_items(items, st)) for n, items in fl]
+    leaves = [("leaf", n.name, norm_items(items, st)) for n, items, src in fl]
     return leaves
 
 
@@ -170,9 +185,9 @@ def check_flat_result(got, t, st):
             return False
         if norm_items(g[2], st) != e[2]:
             return False
-        sp = g[3]
-        return span_same(sp, e[1]) or (leafnode.span is not None and isinstance(sp, dict))
+        return span_matches(g[3], srcs[leafnode.name], st)
     fl = flat(t)
+    srcs = {n.name: (src if (src is None or src.span is not False) else None) for n, items, src in fl}
     if len(exp) == 1:
         return leaf_ok(got, exp[0], fl[0][0])
     if got[0] != "multi" or len(got[1]) != len(exp):
@@ -350,34 +365,21 @@ def native_json(t, st, extra_locs=()):
 def native_flat_json(t, st):
     fl = flat(t)
     outs = []
-    for n, items in fl:
+    for n, items, src in fl:
         own = [tok(l) for l in (n.locs or [])]
         anc = [tok(x[1]) for x in norm_items(items, st) if x[0] == "s"]
         # items already include own locations at the end
-        d = {"msg": native_msg(n, st) + ((" at " + "/".join(anc)) if anc else ""), "span": bool(n.span), "len": 1}
+        d = {"msg": native_msg(n, st) + ((" at " + "/".join(anc)) if anc else ""), "span": bool(src is not None and src.span), "len": 1}
         outs.append(d)
     if len(outs) == 1:
         return outs[0]
     return {"msg": "Multiple errors: (%s)" % ", ".join(o["msg"] for o in outs), "span": False, "len": len(outs), "children": outs}
 
 
-def main():
-    ck = Check("C04")
-    quick = ck.tier == "quick"
-    depth, arity, maxloc = (2, 2, 1)
-    configs = [(2, 2, 1)] if quick else [(2, 2, 1), (1, 3, 2), (1, 4, 1)]
-    ddepth, darity, dloc = (1, 2, 2) if quick else (1, 3, 1)
-    ck.bounds = {"tree_configs(depth, max arity, max locations per node)": configs,
-                 "display_trees": "depth %d, arity 2..%d, locations 0..%d, all ten leaf kinds" % (ddepth, darity, dloc),
-                 "strings": "unbounded (z3 strings)", "usize payloads": "64-bit symbolic"}
-    ck.outside = ["trees deeper / wider than the bounds", "the `diagnostics` feature (child diagnostics)",
-                  "write_errors token output (compile_error! tokens are syn's)"]
-    ck.assumptions = ["representation invariant: a Multiple node has >= 2 children (what Error::multiple constructs)",
-                      "std Vec/String/fmt/iterator cursors modelled; Iterator adaptors (flat_map, map, sum, collect driver) run from real MIR",
-                      "proc_macro2::Span is an abstract origin"]
-    prog = Program(build.dump_mir("hcore"))
-    native = Native(build.build_native("hcore"))
-    ck.programs.add("hcore")
+def block(ck, prog, natbin, quick, which, cfg, dcfg):
+    native = Native(natbin)
+    ddepth, darity, dloc = dcfg
+    nv = 5 if quick else 1
 
     def explore(entry, names, pol):
         I = Interp(prog, models.all_models(), pol, timeout_ms=10000 if quick else 60000)
@@ -407,11 +409,10 @@ def main():
         else:
             ck.report(key, what, {"property": "C04", "entry": entry, "request": request, "expected": expected, "observed": got, "symbolic": repr(sym)[:2000]})
 
-    for (depth, arity, maxloc) in configs:
+    if cfg is not None:
+        depth, arity, maxloc = cfg
         pol = Pol(depth, arity, maxloc)
-        nv = 5 if quick else 1
-
-        # ---- len
+    if which == "len":
         I, e, leaves = explore("entry_len", ["e"], pol)
         for l in leaves:
             if l.status != "returned":
@@ -426,8 +427,8 @@ def main():
             else:
                 fail("entry_len", "len:count", "len() is not the number of leaves", "(len %s)" % native_err(t, l), {"result": n}, l.ret)
 
-        # ---- flatten / flatten twice
-        for ent, req in (("entry_flatten", "flatten"), ("entry_flatten_twice", "flatten_twice")):
+    if which in ("flatten", "flatten_twice"):
+        for ent, req in ((("entry_flatten", "flatten"),) if which == "flatten" else (("entry_flatten_twice", "flatten_twice"),)):
             I, e, leaves = explore(ent, ["e"], pol)
             for l in leaves:
                 t = tree(l, "e")
@@ -446,7 +447,7 @@ def main():
                     fail(ent, "%s:leaves" % req, "flatten does not yield the leaves left-to-right with full location paths", rq,
                          {"result": native_flat_json(t, l)}, got)
 
-        # ---- multiple
+    if which == "multiple":
         I, e, leaves = explore("entry_multiple", ["v"], pol)
         for l in leaves:
             n = l.decisions.get("v#len")
@@ -477,7 +478,7 @@ def main():
             else:
                 fail("entry_multiple", "multiple:bundle", "multiple(v) is not the ordered bundle of v (or v[0] for one)", rq, {"result": expn}, got)
 
-        # ---- at: prepends one location
+    if which == "at":
         I, e, leaves = explore("entry_at", ["e", "loc"], pol)
         for l in leaves:
             t = tree(l, "e")
@@ -495,7 +496,7 @@ def main():
             else:
                 fail("entry_at", "at:prepend", "at() does not prepend the location", rq, {"result": expn}, got)
 
-        # ---- into_iter: one level
+    if which == "into_iter":
         I, e, leaves = explore("entry_into_iter", ["e"], pol)
         for l in leaves:
             t = tree(l, "e")
@@ -520,45 +521,76 @@ def main():
                 fail("entry_into_iter", "into_iter:level", "into_iter does not yield exactly one level", rq, {"result": expn}, gv)
 
 
-    # ---- Display (z3 string obligations)
-    dpol = Pol(ddepth, darity, dloc)
-    I, e, leaves = explore("entry_display", ["e"], dpol)
-    nd = 0
-    for l in leaves:
-        t = tree(l, "e*")
-        rq = "(display %s)" % native_err(t, l)
-        expn = native_display(t, l)
-        if l.status != "returned":
-            fail("entry_display", "display:panic", "Display panicked", rq, {"result": expn}, l.panics)
-            continue
-        got = view(I, l, l.ret, e.local_tys[0])
-        want = display_of(t, l)
-        g = z3.StringVal(got) if isinstance(got, str) else (z3.String(got.name) if isinstance(got, L) else got)
-        okv, mdl = ck.smt_valid(l.pc, g == want)
-        ck.reach("display:%s" % KINDS[t.kind if t.kind is not None else 0])
-        if okv:
-            nd += 1
-            validate("entry_display", rq, {"result": expn}, 3 if quick else 1)
-            if nd % 40 == 1:
-                ck.sample({"entry": "entry_display", "obligation": "forall strings: %s == %s" % (z3.simplify(g).sexpr()[:300], z3.simplify(want).sexpr()[:300]), "native_request": rq})
-        elif okv is False:
-            fail("entry_display", "display:text", "Display text differs from `<kind message>[ at a/b/c]`", rq, {"result": expn}, repr(got)[:500])
+    if which == "display":
+        dpol = Pol(ddepth, darity, dloc)
+        I, e, leaves = explore("entry_display", ["e"], dpol)
+        nd = 0
+        for l in leaves:
+            t = tree(l, "e*")
+            rq = "(display %s)" % native_err(t, l)
+            expn = native_display(t, l)
+            if l.status != "returned":
+                fail("entry_display", "display:panic", "Display panicked", rq, {"result": expn}, l.panics)
+                continue
+            got = view(I, l, l.ret, e.local_tys[0])
+            want = display_of(t, l)
+            g = z3.StringVal(got) if isinstance(got, str) else (z3.String(got.name) if isinstance(got, L) else got)
+            okv, mdl = ck.smt_valid(l.pc, g == want)
+            ck.reach("display:%s" % KINDS[t.kind if t.kind is not None else 0])
+            if okv:
+                nd += 1
+                validate("entry_display", rq, {"result": expn}, 3 if quick else 1)
+                if nd % 40 == 1:
+                    ck.sample({"entry": "entry_display", "obligation": "forall strings: %s == %s" % (z3.simplify(g).sexpr()[:300], z3.simplify(want).sexpr()[:300]), "native_request": rq})
+            elif okv is False:
+                fail("entry_display", "display:text", "Display text differs from `<kind message>[ at a/b/c]`", rq, {"result": expn}, repr(got)[:500])
 
-    # ---- clone: structural copy
-    I, e, leaves = explore("entry_clone", ["e"], Pol(1, 2, 1))
-    for l in leaves:
-        t = tree(l, "e*")
-        rq = "(clone %s)" % native_err(t, l)
-        expn = native_json(t, l)
-        if l.status != "returned":
-            fail("entry_clone", "clone:panic", "clone panicked", rq, {"result": expn}, l.panics)
-            continue
-        ck.ok()
-        validate("entry_clone", rq, {"result": expn}, 2)
+    if which == "clone":
+        I, e, leaves = explore("entry_clone", ["e"], Pol(1, 2, 1))
+        for l in leaves:
+            t = tree(l, "e*")
+            rq = "(clone %s)" % native_err(t, l)
+            expn = native_json(t, l)
+            if l.status != "returned":
+                fail("entry_clone", "clone:panic", "clone panicked", rq, {"result": expn}, l.panics)
+                continue
+            ck.ok()
+            validate("entry_clone", rq, {"result": expn}, 2)
 
+    native.close()
+
+
+def main():
+    ck = Check("C04")
+    quick = ck.tier == "quick"
+    depth, arity, maxloc = (2, 2, 1)
+    configs = [(2, 2, 1)] if quick else [(2, 2, 1), (1, 3, 2), (1, 4, 1)]
+    ddepth, darity, dloc = (1, 2, 2) if quick else (1, 3, 1)
+    ck.bounds = {"tree_configs(depth, max arity, max locations per node)": configs,
+                 "display_trees": "depth %d, arity 2..%d, locations 0..%d, all ten leaf kinds" % (ddepth, darity, dloc),
+                 "strings": "unbounded (z3 strings)", "usize payloads": "64-bit symbolic"}
+    ck.outside = ["trees deeper / wider than the bounds", "the `diagnostics` feature (child diagnostics)",
+                  "write_errors token output (compile_error! tokens are syn's)"]
+    ck.assumptions = ["representation invariant: a Multiple node has >= 2 children (what Error::multiple constructs)",
+                      "std Vec/String/fmt/iterator cursors modelled; Iterator adaptors (flat_map, map, sum, collect driver) run from real MIR",
+                      "proc_macro2::Span is an abstract origin"]
+    prog = Program(build.dump_mir("hcore"))
+    natbin = build.build_native("hcore")
+    ck.programs.add("hcore")
+    blocks = ["len", "flatten", "flatten_twice", "multiple", "at", "into_iter"]
+    jobs = []
+    for cfg in configs:
+        for b in blocks:
+            if b == "flatten_twice" and cfg == (2, 2, 1) and quick:
+                cfg2 = (1, 3, 1)
+                jobs.append(lambda sub, b=b, cfg=cfg2: block(sub, prog, natbin, quick, b, cfg, (ddepth, darity, dloc)))
+                continue
+            jobs.append(lambda sub, b=b, cfg=cfg: block(sub, prog, natbin, quick, b, cfg, (ddepth, darity, dloc)))
+    jobs.append(lambda sub: block(sub, prog, natbin, quick, "display", None, (ddepth, darity, dloc)))
+    jobs.append(lambda sub: block(sub, prog, natbin, quick, "clone", None, (ddepth, darity, dloc)))
+    ck.run_jobs(jobs)
     ck.require_reached(["len:1", "len:2", "flatten:bundle", "flatten:single", "multiple:0", "multiple:1", "multiple:n", "at",
                         "into_iter:bundle", "display:Multiple", "display:Custom", "display:TooFewItems", "display:UnknownField"])
-    native.close()
     ck.finish()
 
 
